@@ -149,6 +149,7 @@ func runC05(c *Ctx) {
 	ruleGateBeforeExecutorLite(c, "R05.c")
 	ruleHandlerErrorKeepsConn(c, "R05.d")
 	ruleOwnedBytes(c, "R05.e")
+	ruleAccessorsIdentity(c, "R05.f")
 	c.assume("[]byte<->string conversions are the identity; strconv parses decimal integers and floats as documented")
 }
 
